@@ -241,6 +241,10 @@ def check(c):
                 return '%s-order: lambda_0 is not ascending' % kind
             if kind == 'eigh' and not np.allclose(lam[0], np.linalg.eigh(a[0])[0], rtol=1e-12, atol=1e-12):
                 return 'eigh-zeroth: lambda_0 differs from numpy.linalg.eigh(A_0)'
+            if 'scale_log2' not in c:
+                f = step_equations_fail('eigh', a, (lam, q))
+                if f:
+                    return f
         elif kind == 'eig':
             lam, q = l.data[:, p], Q.data[:, p]
             qc = q.astype(complex)
@@ -287,6 +291,34 @@ def step_equations_fail(kind, a, outs):
             Phi = np.tril(G, -1) + 0.5 * np.diag(np.diag(G))
             if not close(l_[d], -(l_[0] @ Phi), 1e-8):
                 return 'cholesky-step: the order-%d step equation of _cholesky (model of the theorem) does not hold on the output' % d
+    if kind == 'eigh':
+        # Eigh1Step (Proofs/EighStep.lean): for distinct eigenvalues UTPM.eigh is one call of _eigh1 on the whole
+        # matrix; for repeated eigenvalues the relaxed problem is solved by UTPM._eigh1 itself (block diagonal L)
+        lam, q = outs
+        gaps = np.abs(np.subtract.outer(lam[0], lam[0]))[~np.eye(n, dtype=bool)]
+        if n > 1 and gaps.min() <= 1e-6:
+            Lh, Qh = np.zeros((D, n, n)), np.zeros((D, n, n))
+            UTPM._eigh1(Lh, Qh, a.copy())
+            q, Lm = Qh, Lh
+        else:
+            Lm = np.array([np.diag(lam[d]) for d in range(D)])
+        l0 = np.diag(Lm[0])
+        same = np.abs(np.subtract.outer(l0, l0)) <= 1e-8
+        with np.errstate(divide='ignore'):
+            Hm = np.where(same, 0.0, 1.0 / np.where(same, 1.0, l0[None, :] - l0[:, None]))
+        for d in range(1, D):
+            G = sum((q[k].T @ q[d - k] for k in range(1, d)), np.zeros((n, n)))
+            S = -0.5 * G
+            F = np.zeros((n, n))
+            for i in range(d):
+                for j in range(d):
+                    k = d - i - j
+                    if 0 <= k < d:
+                        F += q[i].T @ a[j] @ q[k]
+            Km = F + q[0].T @ a[d] @ q[0] + S @ Lm[0] + Lm[0] @ S
+            X = Km * Hm
+            if not close(Lm[d], np.where(same, Km, 0.0), 1e-7) or not close(q[d], q[0] @ (X + S), 1e-7):
+                return 'eigh-step: the order-%d step equations of _eigh1 (model of the theorem) do not hold on the output' % d
     if kind == 'lu':
         w, l_, u = outs
         L0inv, U0inv = np.linalg.inv(l_[0]), np.linalg.inv(u[0])
